@@ -228,7 +228,7 @@ Ltac upd_cases k x :=
 Lemma hscan_gmerge own s e : hscan own s e = gmerge s (delta own e).
 Proof.
   unfold delta.
-  destruct e as [pk meta seed ownmd|pk|pk meta seed|pk|pk|pk|pk| | |sd|g|g|m d|sender dest|m|c|k]; cbn.
+  destruct e as [pk meta seed ownmd|pk|pk meta seed|pk|pk|pk|pk| | |sd|g|g|m d|sender dest|m|c|k|ad ak]; cbn.
   - destruct (g_contact s pk) as [c|] eqn:E; apply gstate_eq; cbn; intros;
       try (destruct (g_enabled s); reflexivity); try (rewrite ?nz_0_r; reflexivity);
       try (destruct (g_group s k); reflexivity); try (destruct (g_dev s k); reflexivity);
@@ -320,13 +320,14 @@ Proof.
       try (destruct (g_dev s k); reflexivity);
       try (rewrite ?orb_false_r; reflexivity).
   - symmetry. apply gmerge_init_r.
+  - symmetry. apply gmerge_init_r.
 Qed.
 
 (* the log-order handler multiplies on the left *)
 Lemma happly_gmerge own s e : happly own s e = gmerge (delta own e) s.
 Proof.
   unfold delta.
-  destruct e as [pk meta seed ownmd|pk|pk meta seed|pk|pk|pk|pk| | |sd|g|g|m d|sender dest|m|c|k]; cbn;
+  destruct e as [pk meta seed ownmd|pk|pk meta seed|pk|pk|pk|pk| | |sd|g|g|m d|sender dest|m|c|k|ad ak]; cbn;
     try (unfold apply_plain, scan_plain, prev_meta, prev_seed; cbn);
     try (lazymatch goal with |- context [if (_ =? own) then _ else _] => fail | _ => idtac end;
          apply gstate_eq; cbn; intros; try reflexivity;
